@@ -1,6 +1,7 @@
 package main
 
 import (
+	"golang.org/x/tools/go/ssa"
 	"flag"
 	"fmt"
 	"os"
@@ -47,6 +48,21 @@ func loadAll(repo string) (*World, *Contracts) {
 	cs, err := loadContracts(repo, filepath.Join(verifDir, "contracts"))
 	if err != nil {
 		fmt.Fprintln(os.Stderr, "gobtvc: contracts:", err)
+		os.Exit(2)
+	}
+	// interface methods declared pure by contract: re-run the effect analyses with that knowledge, then check that
+	// every library implementation really writes no pre-existing memory
+	w.PureIface = func(c *ssa.CallCommon) bool {
+		ct := cs.IfaceFor(ifaceKey(c))
+		return ct != nil && ct.Pure
+	}
+	w.ModSet = map[*ssa.Function]map[string]bool{}
+	w.computeModSets()
+	w.computeWritesExisting()
+	if bad := w.checkPureIfaces(cs); len(bad) > 0 {
+		for _, b := range bad {
+			fmt.Fprintln(os.Stderr, "gobtvc: contract violated:", b)
+		}
 		os.Exit(2)
 	}
 	return w, cs
